@@ -11,3 +11,4 @@ import JaxVerif.Properties.C04
 #print axioms JV.C04_seq_idempotent
 #print axioms JV.C04_pytree_idempotent
 #print axioms JV.C04_source_pytree_rollback
+#print axioms JV.C04_source_storage
